@@ -1,6 +1,1451 @@
-//! (stub) — not generated yet.
-use super::{GenFile, Repo};
+//! Translator for `Gen/AutoTraits.lean` (property C05) — and the shared *crate model*
+//! (`CrateModel`: cfg evaluation, module tree, name resolution, public reachability) that
+//! `extract/pubfns.rs` reuses.
+//!
+//! Generated table: every `struct`/`enum`/`union` of the compiled, non-test source with its
+//! type parameters and field types translated into the term language of
+//! `HipVerif/Model/AutoTraitTy.lean`, and every `unsafe impl … Send/Sync for …` (and negative
+//! impl) with its `Send`/`Sync` where-clauses. Anything not recognised is an `Err`
+//! (fail closed): unknown type syntax, a specialised impl (`impl Send for X<Arc>`), a bound on
+//! something that is not a plain type parameter, an unknown `cfg` key, …
 
-pub fn generate(_repo: &Repo) -> Result<Vec<GenFile>, String> {
-    Ok(vec![])
+use std::collections::{BTreeMap, BTreeSet};
+
+use syn::spanned::Spanned;
+
+use super::repo::{loc, SrcFile};
+use super::{GenFile, Repo, HEADER};
+
+// ---------------------------------------------------------------------------------------------
+// cfg evaluation: ONE fixed configuration (the one the rustc probes are compiled with)
+// ---------------------------------------------------------------------------------------------
+
+/// Features enabled in the modelled configuration (the probe crates enable the same ones).
+pub const FEATURES_ON: &[&str] = &["std", "serde", "borsh", "bstr"];
+const FEATURES_OFF: &[&str] = &["unstable"];
+
+fn eval_cfg_meta(m: &syn::Meta) -> Result<bool, String> {
+    use syn::punctuated::Punctuated;
+    match m {
+        syn::Meta::Path(p) => {
+            let id = p
+                .get_ident()
+                .map(|i| i.to_string())
+                .ok_or_else(|| "cfg: non-ident path".to_string())?;
+            match id.as_str() {
+                "test" | "loom" | "miri" | "coverage_nightly" | "docsrs" | "hipstr_verif"
+                | "windows" => Ok(false),
+                "unix" | "debug_assertions" => Ok(true),
+                other => Err(format!("cfg: unknown predicate `{other}`")),
+            }
+        }
+        syn::Meta::NameValue(nv) => {
+            let key = nv
+                .path
+                .get_ident()
+                .map(|i| i.to_string())
+                .ok_or_else(|| "cfg: non-ident key".to_string())?;
+            let val = match &nv.value {
+                syn::Expr::Lit(syn::ExprLit {
+                    lit: syn::Lit::Str(s),
+                    ..
+                }) => s.value(),
+                _ => return Err(format!("cfg: non-string value for `{key}`")),
+            };
+            match key.as_str() {
+                "feature" => {
+                    if FEATURES_ON.contains(&val.as_str()) {
+                        Ok(true)
+                    } else if FEATURES_OFF.contains(&val.as_str()) {
+                        Ok(false)
+                    } else {
+                        Err(format!("cfg: unknown feature `{val}`"))
+                    }
+                }
+                "target_endian" => Ok(val == "little"),
+                "target_pointer_width" => Ok(val == "64"),
+                "target_has_atomic" => Ok(val == "ptr" || val == "64" || val == "8"),
+                other => Err(format!("cfg: unknown key `{other}`")),
+            }
+        }
+        syn::Meta::List(l) => {
+            let id = l
+                .path
+                .get_ident()
+                .map(|i| i.to_string())
+                .ok_or_else(|| "cfg: non-ident list".to_string())?;
+            let inner = l
+                .parse_args_with(Punctuated::<syn::Meta, syn::Token![,]>::parse_terminated)
+                .map_err(|e| format!("cfg: {e}"))?;
+            match id.as_str() {
+                "all" => {
+                    let mut r = true;
+                    for m in &inner {
+                        r &= eval_cfg_meta(m)?;
+                    }
+                    Ok(r)
+                }
+                "any" => {
+                    let mut r = false;
+                    for m in &inner {
+                        r |= eval_cfg_meta(m)?;
+                    }
+                    Ok(r)
+                }
+                "not" => {
+                    if inner.len() != 1 {
+                        return Err("cfg: not() with != 1 argument".into());
+                    }
+                    Ok(!eval_cfg_meta(&inner[0])?)
+                }
+                other => Err(format!("cfg: unknown combinator `{other}`")),
+            }
+        }
+    }
+}
+
+/// Is the item carrying `attrs` compiled in the modelled configuration?
+pub fn cfg_active(attrs: &[syn::Attribute]) -> Result<bool, String> {
+    for a in attrs {
+        if a.path().is_ident("cfg") {
+            let m: syn::Meta = a.parse_args().map_err(|e| format!("cfg: {e}"))?;
+            if !eval_cfg_meta(&m)? {
+                return Ok(false);
+            }
+        }
+    }
+    Ok(true)
+}
+
+pub fn item_attrs(it: &syn::Item) -> &[syn::Attribute] {
+    use syn::Item::*;
+    match it {
+        Const(i) => &i.attrs,
+        Enum(i) => &i.attrs,
+        ExternCrate(i) => &i.attrs,
+        Fn(i) => &i.attrs,
+        ForeignMod(i) => &i.attrs,
+        Impl(i) => &i.attrs,
+        Macro(i) => &i.attrs,
+        Mod(i) => &i.attrs,
+        Static(i) => &i.attrs,
+        Struct(i) => &i.attrs,
+        Trait(i) => &i.attrs,
+        TraitAlias(i) => &i.attrs,
+        Type(i) => &i.attrs,
+        Union(i) => &i.attrs,
+        Use(i) => &i.attrs,
+        _ => &[],
+    }
+}
+
+// ---------------------------------------------------------------------------------------------
+// crate model
+// ---------------------------------------------------------------------------------------------
+
+#[derive(Clone, Copy, PartialEq, Eq, Debug)]
+pub enum Vis {
+    Pub,
+    Restricted,
+    Private,
+}
+
+pub fn vis_of(v: &syn::Visibility) -> Vis {
+    match v {
+        syn::Visibility::Public(_) => Vis::Pub,
+        syn::Visibility::Restricted(_) => Vis::Restricted,
+        syn::Visibility::Inherited => Vis::Private,
+    }
+}
+
+pub enum DefKind<'r> {
+    Struct(&'r syn::ItemStruct),
+    Enum(&'r syn::ItemEnum),
+    Union(&'r syn::ItemUnion),
+    Alias(&'r syn::ItemType),
+    Trait(&'r syn::ItemTrait),
+    Fn(&'r syn::ItemFn),
+    Mod(usize),
+    /// const / static / macro_rules: nameable, not a type
+    Other,
+}
+
+pub struct Def<'r> {
+    pub module: usize,
+    pub name: String,
+    pub kind: DefKind<'r>,
+    pub vis: Vis,
+    /// some public path (`bytes::HipByt`) if the item is nameable from outside the crate
+    pub public_path: Option<Vec<String>>,
+}
+
+pub struct UseBinding {
+    pub alias: String,
+    pub path: Vec<String>,
+    pub leading_colon: bool,
+    pub is_pub: bool,
+}
+
+pub struct GlobUse {
+    pub path: Vec<String>,
+    pub leading_colon: bool,
+    pub is_pub: bool,
+}
+
+pub struct Module<'r> {
+    pub path: Vec<String>,
+    pub file: &'r SrcFile,
+    pub items: Vec<&'r syn::Item>,
+    pub parent: Option<usize>,
+    pub defs: Vec<usize>,
+    pub uses: Vec<UseBinding>,
+    pub globs: Vec<GlobUse>,
+    /// some public path if every module on it is `pub` (or it was `pub use`d)
+    pub public_path: Option<Vec<String>>,
+}
+
+#[derive(Clone, Debug, PartialEq, Eq)]
+pub enum Res {
+    Def(usize),
+    /// a path into another crate (`alloc::vec::Vec`)
+    External(Vec<String>),
+    Prim(String),
+}
+
+pub struct CrateModel<'r> {
+    pub modules: Vec<Module<'r>>,
+    pub defs: Vec<Def<'r>>,
+}
+
+const EXTERN_CRATES: &[&str] = &["core", "alloc", "std", "bstr", "serde", "borsh"];
+const PRIMS: &[&str] = &[
+    "u8", "u16", "u32", "u64", "u128", "usize", "i8", "i16", "i32", "i64", "i128", "isize",
+    "bool", "char", "str", "f32", "f64",
+];
+/// `core::prelude` (the crate is `no_std`, edition 2021).
+const PRELUDE: &[(&str, &str)] = &[
+    ("Option", "core::option::Option"),
+    ("Some", "core::option::Option::Some"),
+    ("None", "core::option::Option::None"),
+    ("Result", "core::result::Result"),
+    ("Ok", "core::result::Result::Ok"),
+    ("Err", "core::result::Result::Err"),
+    ("Send", "core::marker::Send"),
+    ("Sync", "core::marker::Sync"),
+    ("Sized", "core::marker::Sized"),
+    ("Copy", "core::marker::Copy"),
+    ("Unpin", "core::marker::Unpin"),
+    ("Clone", "core::clone::Clone"),
+    ("Default", "core::default::Default"),
+    ("Drop", "core::ops::Drop"),
+    ("Fn", "core::ops::Fn"),
+    ("FnMut", "core::ops::FnMut"),
+    ("FnOnce", "core::ops::FnOnce"),
+    ("From", "core::convert::From"),
+    ("Into", "core::convert::Into"),
+    ("TryFrom", "core::convert::TryFrom"),
+    ("TryInto", "core::convert::TryInto"),
+    ("AsRef", "core::convert::AsRef"),
+    ("AsMut", "core::convert::AsMut"),
+    ("Iterator", "core::iter::Iterator"),
+    ("IntoIterator", "core::iter::IntoIterator"),
+    ("DoubleEndedIterator", "core::iter::DoubleEndedIterator"),
+    ("ExactSizeIterator", "core::iter::ExactSizeIterator"),
+    ("Extend", "core::iter::Extend"),
+    ("FromIterator", "core::iter::FromIterator"),
+    ("PartialEq", "core::cmp::PartialEq"),
+    ("Eq", "core::cmp::Eq"),
+    ("PartialOrd", "core::cmp::PartialOrd"),
+    ("Ord", "core::cmp::Ord"),
+];
+
+fn flatten_use(
+    tree: &syn::UseTree,
+    prefix: &mut Vec<String>,
+    leading_colon: bool,
+    is_pub: bool,
+    m: &mut Module,
+) {
+    match tree {
+        syn::UseTree::Path(p) => {
+            prefix.push(p.ident.to_string());
+            flatten_use(&p.tree, prefix, leading_colon, is_pub, m);
+            prefix.pop();
+        }
+        syn::UseTree::Name(n) => {
+            let name = n.ident.to_string();
+            if name == "self" {
+                if let Some(last) = prefix.last() {
+                    m.uses.push(UseBinding {
+                        alias: last.clone(),
+                        path: prefix.clone(),
+                        leading_colon,
+                        is_pub,
+                    });
+                }
+            } else {
+                let mut path = prefix.clone();
+                path.push(name.clone());
+                m.uses.push(UseBinding {
+                    alias: name,
+                    path,
+                    leading_colon,
+                    is_pub,
+                });
+            }
+        }
+        syn::UseTree::Rename(r) => {
+            let alias = r.rename.to_string();
+            if alias != "_" {
+                let mut path = prefix.clone();
+                let name = r.ident.to_string();
+                if name != "self" {
+                    path.push(name);
+                }
+                m.uses.push(UseBinding {
+                    alias,
+                    path,
+                    leading_colon,
+                    is_pub,
+                });
+            }
+        }
+        syn::UseTree::Glob(_) => m.globs.push(GlobUse {
+            path: prefix.clone(),
+            leading_colon,
+            is_pub,
+        }),
+        syn::UseTree::Group(g) => {
+            for t in &g.items {
+                flatten_use(t, prefix, leading_colon, is_pub, m);
+            }
+        }
+    }
+}
+
+impl<'r> CrateModel<'r> {
+    pub fn build(repo: &'r Repo) -> Result<CrateModel<'r>, String> {
+        let mut cm = CrateModel {
+            modules: vec![],
+            defs: vec![],
+        };
+        let root = repo.file("src/lib.rs")?;
+        cm.add_module(repo, vec![], root, root.ast.items.iter().collect(), None)?;
+        cm.compute_public()?;
+        Ok(cm)
+    }
+
+    fn add_module(
+        &mut self,
+        repo: &'r Repo,
+        path: Vec<String>,
+        file: &'r SrcFile,
+        items: Vec<&'r syn::Item>,
+        parent: Option<usize>,
+    ) -> Result<usize, String> {
+        let id = self.modules.len();
+        self.modules.push(Module {
+            path: path.clone(),
+            file,
+            items: vec![],
+            parent,
+            defs: vec![],
+            uses: vec![],
+            globs: vec![],
+            public_path: None,
+        });
+        let mut active = vec![];
+        for it in items {
+            if !cfg_active(item_attrs(it)).map_err(|e| format!("{}: {e}", file.rel))? {
+                continue;
+            }
+            active.push(it);
+        }
+        for it in &active {
+            let (name, kind, vis) = match it {
+                syn::Item::Struct(s) => (s.ident.to_string(), DefKind::Struct(s), vis_of(&s.vis)),
+                syn::Item::Enum(s) => (s.ident.to_string(), DefKind::Enum(s), vis_of(&s.vis)),
+                syn::Item::Union(s) => (s.ident.to_string(), DefKind::Union(s), vis_of(&s.vis)),
+                syn::Item::Type(s) => (s.ident.to_string(), DefKind::Alias(s), vis_of(&s.vis)),
+                syn::Item::Trait(s) => (s.ident.to_string(), DefKind::Trait(s), vis_of(&s.vis)),
+                syn::Item::Fn(s) => (s.sig.ident.to_string(), DefKind::Fn(s), vis_of(&s.vis)),
+                syn::Item::Const(s) => (s.ident.to_string(), DefKind::Other, vis_of(&s.vis)),
+                syn::Item::Static(s) => (s.ident.to_string(), DefKind::Other, vis_of(&s.vis)),
+                syn::Item::Mod(m) => {
+                    for a in &m.attrs {
+                        if a.path().is_ident("path") {
+                            return Err(format!(
+                                "{}: #[path] on module unsupported",
+                                loc(file, m.span())
+                            ));
+                        }
+                    }
+                    let mut sub = path.clone();
+                    sub.push(m.ident.to_string());
+                    let child = match &m.content {
+                        Some((_, its)) => {
+                            self.add_module(repo, sub, file, its.iter().collect(), Some(id))?
+                        }
+                        None => {
+                            let a = format!("src/{}.rs", sub.join("/"));
+                            let b = format!("src/{}/mod.rs", sub.join("/"));
+                            let f = repo.file(&a).or_else(|_| repo.file(&b)).map_err(|_| {
+                                format!("{}: file of module not found", loc(file, m.span()))
+                            })?;
+                            self.add_module(repo, sub, f, f.ast.items.iter().collect(), Some(id))?
+                        }
+                    };
+                    (m.ident.to_string(), DefKind::Mod(child), vis_of(&m.vis))
+                }
+                syn::Item::Use(u) => {
+                    let is_pub = vis_of(&u.vis) == Vis::Pub;
+                    let mut m = std::mem::replace(
+                        &mut self.modules[id],
+                        Module {
+                            path: vec![],
+                            file,
+                            items: vec![],
+                            parent: None,
+                            defs: vec![],
+                            uses: vec![],
+                            globs: vec![],
+                            public_path: None,
+                        },
+                    );
+                    flatten_use(&u.tree, &mut vec![], u.leading_colon.is_some(), is_pub, &mut m);
+                    self.modules[id] = m;
+                    continue;
+                }
+                syn::Item::Macro(m) => match &m.ident {
+                    Some(i) => (i.to_string(), DefKind::Other, Vis::Private),
+                    None => continue,
+                },
+                syn::Item::Impl(_) | syn::Item::ExternCrate(_) | syn::Item::ForeignMod(_) => {
+                    continue
+                }
+                other => {
+                    return Err(format!(
+                        "{}: unsupported item kind",
+                        loc(file, other.span())
+                    ))
+                }
+            };
+            let did = self.defs.len();
+            self.defs.push(Def {
+                module: id,
+                name,
+                kind,
+                vis,
+                public_path: None,
+            });
+            self.modules[id].defs.push(did);
+        }
+        self.modules[id].items = active;
+        Ok(id)
+    }
+
+    /// `a::b::Name` (module path of the definition, crate-relative) — the canonical row name.
+    pub fn def_path(&self, d: usize) -> String {
+        let def = &self.defs[d];
+        let mut p = self.modules[def.module].path.clone();
+        p.push(def.name.clone());
+        p.join("::")
+    }
+
+    fn lookup_in_module(&self, m: usize, name: &str, depth: usize) -> Result<Option<Res>, String> {
+        if depth > 16 {
+            return Err(format!("resolution too deep at `{name}`"));
+        }
+        let module = &self.modules[m];
+        // local definitions: prefer types/modules/traits over values (fn/const) of the same name
+        let mut found: Option<usize> = None;
+        for &d in &module.defs {
+            if self.defs[d].name == name {
+                let is_value = matches!(self.defs[d].kind, DefKind::Fn(_) | DefKind::Other);
+                if found.is_none() || !is_value {
+                    found = Some(d);
+                }
+            }
+        }
+        if let Some(d) = found {
+            return Ok(Some(Res::Def(d)));
+        }
+        for u in &module.uses {
+            if u.alias == name {
+                let (res, rest) = self.resolve_inner(m, &u.path, u.leading_colon, depth + 1, true)?;
+                if !rest.is_empty() {
+                    // e.g. `use Enum::Variant` — not a type
+                    return Ok(Some(match res {
+                        Res::External(mut p) => {
+                            p.extend(rest);
+                            Res::External(p)
+                        }
+                        other => other,
+                    }));
+                }
+                return Ok(Some(res));
+            }
+        }
+        for g in &module.globs {
+            let (res, rest) = self.resolve_inner(m, &g.path, g.leading_colon, depth + 1, true)?;
+            if !rest.is_empty() {
+                continue;
+            }
+            if let Res::Def(d) = res {
+                if let DefKind::Mod(target) = self.defs[d].kind {
+                    if target != m {
+                        if let Some(r) = self.lookup_in_module(target, name, depth + 1)? {
+                            return Ok(Some(r));
+                        }
+                    }
+                }
+            }
+            // globs of external modules/enums: cannot enumerate, fall through
+        }
+        Ok(None)
+    }
+
+    fn root_def_for_module(&self, m: usize) -> Option<usize> {
+        self.defs
+            .iter()
+            .position(|d| matches!(d.kind, DefKind::Mod(x) if x == m))
+    }
+
+    /// Resolves a path written in module `m`. Returns the resolution and the unresolved tail
+    /// (associated items / enum variants).
+    fn resolve_inner(
+        &self,
+        m: usize,
+        segs: &[String],
+        leading_colon: bool,
+        depth: usize,
+        in_use: bool,
+    ) -> Result<(Res, Vec<String>), String> {
+        if segs.is_empty() {
+            return Err("empty path".into());
+        }
+        if leading_colon {
+            return Ok((Res::External(segs.to_vec()), vec![]));
+        }
+        enum Cur {
+            Mod(usize),
+            Res(Res),
+        }
+        let mut idx = 0;
+        let mut cur = match segs[0].as_str() {
+            "crate" => {
+                idx = 1;
+                Cur::Mod(0)
+            }
+            "self" => {
+                idx = 1;
+                Cur::Mod(m)
+            }
+            "super" => {
+                let mut mm = m;
+                while idx < segs.len() && segs[idx] == "super" {
+                    mm = self.modules[mm]
+                        .parent
+                        .ok_or_else(|| "super above the crate root".to_string())?;
+                    idx += 1;
+                }
+                Cur::Mod(mm)
+            }
+            first => {
+                idx = 1;
+                // `use` paths are resolved like ordinary paths (edition 2018+): names in scope
+                // first, then extern crates.
+                let _ = in_use;
+                if let Some(r) = self.lookup_in_module(m, first, depth + 1)? {
+                    Cur::Res(r)
+                } else if EXTERN_CRATES.contains(&first) {
+                    Cur::Res(Res::External(vec![first.to_string()]))
+                } else if PRIMS.contains(&first) {
+                    Cur::Res(Res::Prim(first.to_string()))
+                } else if let Some((_, full)) = PRELUDE.iter().find(|(n, _)| *n == first) {
+                    Cur::Res(Res::External(
+                        full.split("::").map(str::to_string).collect(),
+                    ))
+                } else {
+                    return Err(format!(
+                        "cannot resolve `{}` in module `{}`",
+                        segs.join("::"),
+                        self.modules[m].path.join("::")
+                    ));
+                }
+            }
+        };
+        loop {
+            match cur {
+                Cur::Mod(mm) => {
+                    if idx >= segs.len() {
+                        let d = self
+                            .root_def_for_module(mm)
+                            .ok_or_else(|| "path names the crate root".to_string())?;
+                        return Ok((Res::Def(d), vec![]));
+                    }
+                    match self.lookup_in_module(mm, &segs[idx], depth + 1)? {
+                        Some(r) => {
+                            idx += 1;
+                            cur = Cur::Res(r);
+                        }
+                        None => {
+                            return Err(format!(
+                                "cannot resolve `{}` (segment `{}`) from module `{}`",
+                                segs.join("::"),
+                                segs[idx],
+                                self.modules[m].path.join("::")
+                            ))
+                        }
+                    }
+                }
+                Cur::Res(Res::Def(d)) => {
+                    if let DefKind::Mod(mm) = self.defs[d].kind {
+                        if idx >= segs.len() {
+                            return Ok((Res::Def(d), vec![]));
+                        }
+                        cur = Cur::Mod(mm);
+                    } else {
+                        return Ok((Res::Def(d), segs[idx..].to_vec()));
+                    }
+                }
+                Cur::Res(Res::External(mut p)) => {
+                    p.extend(segs[idx..].iter().cloned());
+                    return Ok((Res::External(p), vec![]));
+                }
+                Cur::Res(Res::Prim(p)) => return Ok((Res::Prim(p), segs[idx..].to_vec())),
+            }
+        }
+    }
+
+    pub fn resolve(
+        &self,
+        m: usize,
+        segs: &[String],
+        leading_colon: bool,
+    ) -> Result<(Res, Vec<String>), String> {
+        self.resolve_inner(m, segs, leading_colon, 0, false)
+    }
+
+    /// Resolve a `syn::Path` (generic arguments ignored here).
+    pub fn resolve_syn(&self, m: usize, p: &syn::Path) -> Result<(Res, Vec<String>), String> {
+        let segs: Vec<String> = p.segments.iter().map(|s| s.ident.to_string()).collect();
+        self.resolve(m, &segs, p.leading_colon.is_some())
+    }
+
+    /// Public reachability: `pub mod` chains from the root and `pub use` re-exports.
+    fn compute_public(&mut self) -> Result<(), String> {
+        self.modules[0].public_path = Some(vec![]);
+        let mut changed = true;
+        let mut rounds = 0;
+        while changed {
+            changed = false;
+            rounds += 1;
+            if rounds > 64 {
+                return Err("public reachability does not converge".into());
+            }
+            for m in 0..self.modules.len() {
+                let Some(mpath) = self.modules[m].public_path.clone() else {
+                    continue;
+                };
+                // pub items defined here
+                for di in 0..self.modules[m].defs.len() {
+                    let d = self.modules[m].defs[di];
+                    if self.defs[d].vis == Vis::Pub && self.defs[d].public_path.is_none() {
+                        let mut p = mpath.clone();
+                        p.push(self.defs[d].name.clone());
+                        if let DefKind::Mod(child) = self.defs[d].kind {
+                            if self.modules[child].public_path.is_none() {
+                                self.modules[child].public_path = Some(p.clone());
+                            }
+                        }
+                        self.defs[d].public_path = Some(p);
+                        changed = true;
+                    }
+                }
+                // pub use re-exports
+                let mut marks: Vec<(usize, Vec<String>)> = vec![];
+                for u in &self.modules[m].uses {
+                    if !u.is_pub {
+                        continue;
+                    }
+                    let (res, rest) = self.resolve(m, &u.path, u.leading_colon)?;
+                    if let (Res::Def(d), true) = (res, rest.is_empty()) {
+                        let mut p = mpath.clone();
+                        p.push(u.alias.clone());
+                        marks.push((d, p));
+                    }
+                }
+                for g in &self.modules[m].globs {
+                    if !g.is_pub {
+                        continue;
+                    }
+                    let (res, rest) = self.resolve(m, &g.path, g.leading_colon)?;
+                    if let (Res::Def(d), true) = (res, rest.is_empty()) {
+                        if let DefKind::Mod(target) = self.defs[d].kind {
+                            for &td in &self.modules[target].defs {
+                                if self.defs[td].vis == Vis::Pub {
+                                    let mut p = mpath.clone();
+                                    p.push(self.defs[td].name.clone());
+                                    marks.push((td, p));
+                                }
+                            }
+                            for u in &self.modules[target].uses {
+                                if u.is_pub {
+                                    let (r2, rest2) =
+                                        self.resolve(target, &u.path, u.leading_colon)?;
+                                    if let (Res::Def(d2), true) = (r2, rest2.is_empty()) {
+                                        let mut p = mpath.clone();
+                                        p.push(u.alias.clone());
+                                        marks.push((d2, p));
+                                    }
+                                }
+                            }
+                        }
+                    }
+                }
+                for (d, p) in marks {
+                    if self.defs[d].public_path.is_none() {
+                        if let DefKind::Mod(child) = self.defs[d].kind {
+                            if self.modules[child].public_path.is_none() {
+                                self.modules[child].public_path = Some(p.clone());
+                            }
+                        }
+                        self.defs[d].public_path = Some(p);
+                        changed = true;
+                    }
+                }
+            }
+        }
+        Ok(())
+    }
+
+    /// (number of lifetime params, names of the type params, names of the const params) of a
+    /// local struct/enum/union/alias/trait.
+    pub fn generics_of(&self, d: usize) -> Option<&'r syn::Generics> {
+        match &self.defs[d].kind {
+            DefKind::Struct(s) => Some(&s.generics),
+            DefKind::Enum(s) => Some(&s.generics),
+            DefKind::Union(s) => Some(&s.generics),
+            DefKind::Alias(s) => Some(&s.generics),
+            DefKind::Trait(s) => Some(&s.generics),
+            DefKind::Fn(s) => Some(&s.sig.generics),
+            _ => None,
+        }
+    }
+
+    pub fn is_adt(&self, d: usize) -> bool {
+        matches!(
+            self.defs[d].kind,
+            DefKind::Struct(_) | DefKind::Enum(_) | DefKind::Union(_)
+        )
+    }
+}
+
+// ---------------------------------------------------------------------------------------------
+// the auto-trait term language (mirror of Model/AutoTraitTy.lean)
+// ---------------------------------------------------------------------------------------------
+
+#[derive(Clone, Debug, PartialEq, Eq)]
+pub enum Ty {
+    Named(String, Vec<Ty>),
+    Std(String, Vec<Ty>),
+    Ref(Box<Ty>),
+    RefMut(Box<Ty>),
+    RawPtrConst(Box<Ty>),
+    RawPtrMut(Box<Ty>),
+    Phantom(Box<Ty>),
+    Cell(Box<Ty>),
+    AtomicUsize,
+    NonNull(Box<Ty>),
+    Prim(String),
+    Param(usize),
+    MaybeUninit(Box<Ty>),
+    ManuallyDrop(Box<Ty>),
+    Tuple(Vec<Ty>),
+    Slice(Box<Ty>),
+    Array(Box<Ty>),
+    Unit,
+    NonZeroU8,
+}
+
+fn lean_str(s: &str) -> String {
+    let mut o = String::from("\"");
+    for c in s.chars() {
+        match c {
+            '"' => o.push_str("\\\""),
+            '\\' => o.push_str("\\\\"),
+            '\n' => o.push_str("\\n"),
+            c => o.push(c),
+        }
+    }
+    o.push('"');
+    o
+}
+
+pub fn lean_string(s: &str) -> String {
+    lean_str(s)
+}
+
+impl Ty {
+    pub fn lean(&self) -> String {
+        fn list(ts: &[Ty]) -> String {
+            format!(
+                "[{}]",
+                ts.iter().map(|t| t.lean()).collect::<Vec<_>>().join(", ")
+            )
+        }
+        match self {
+            Ty::Named(n, a) => format!(".named {} {}", lean_str(n), list(a)),
+            Ty::Std(n, a) => format!(".std {} {}", lean_str(n), list(a)),
+            Ty::Ref(t) => format!(".ref ({})", t.lean()),
+            Ty::RefMut(t) => format!(".refMut ({})", t.lean()),
+            Ty::RawPtrConst(t) => format!(".rawPtrConst ({})", t.lean()),
+            Ty::RawPtrMut(t) => format!(".rawPtrMut ({})", t.lean()),
+            Ty::Phantom(t) => format!(".phantom ({})", t.lean()),
+            Ty::Cell(t) => format!(".cell ({})", t.lean()),
+            Ty::AtomicUsize => ".atomicUsize".into(),
+            Ty::NonNull(t) => format!(".nonNull ({})", t.lean()),
+            Ty::Prim(n) => format!(".prim {}", lean_str(n)),
+            Ty::Param(i) => format!(".param {i}"),
+            Ty::MaybeUninit(t) => format!(".maybeUninit ({})", t.lean()),
+            Ty::ManuallyDrop(t) => format!(".manuallyDrop ({})", t.lean()),
+            Ty::Tuple(ts) => format!(".tuple {}", list(ts)),
+            Ty::Slice(t) => format!(".slice ({})", t.lean()),
+            Ty::Array(t) => format!(".array ({})", t.lean()),
+            Ty::Unit => ".unit".into(),
+            Ty::NonZeroU8 => ".nonZeroU8".into(),
+        }
+    }
+
+    fn subst(&self, args: &[Ty]) -> Result<Ty, String> {
+        let b = |t: &Ty| -> Result<Box<Ty>, String> { Ok(Box::new(t.subst(args)?)) };
+        let l = |ts: &[Ty]| -> Result<Vec<Ty>, String> { ts.iter().map(|t| t.subst(args)).collect() };
+        Ok(match self {
+            Ty::Param(i) => args
+                .get(*i)
+                .cloned()
+                .ok_or_else(|| format!("alias parameter {i} not supplied"))?,
+            Ty::Named(n, a) => Ty::Named(n.clone(), l(a)?),
+            Ty::Std(n, a) => Ty::Std(n.clone(), l(a)?),
+            Ty::Ref(t) => Ty::Ref(b(t)?),
+            Ty::RefMut(t) => Ty::RefMut(b(t)?),
+            Ty::RawPtrConst(t) => Ty::RawPtrConst(b(t)?),
+            Ty::RawPtrMut(t) => Ty::RawPtrMut(b(t)?),
+            Ty::Phantom(t) => Ty::Phantom(b(t)?),
+            Ty::Cell(t) => Ty::Cell(b(t)?),
+            Ty::NonNull(t) => Ty::NonNull(b(t)?),
+            Ty::MaybeUninit(t) => Ty::MaybeUninit(b(t)?),
+            Ty::ManuallyDrop(t) => Ty::ManuallyDrop(b(t)?),
+            Ty::Tuple(ts) => Ty::Tuple(l(ts)?),
+            Ty::Slice(t) => Ty::Slice(b(t)?),
+            Ty::Array(t) => Ty::Array(b(t)?),
+            Ty::AtomicUsize | Ty::Prim(_) | Ty::Unit | Ty::NonZeroU8 => self.clone(),
+        })
+    }
+}
+
+/// Names of the type parameters (in order, lifetimes and consts skipped), number of lifetimes.
+pub fn generic_names(g: &syn::Generics) -> (Vec<String>, usize, Vec<String>) {
+    let mut tys = vec![];
+    let mut lts = 0;
+    let mut consts = vec![];
+    for p in &g.params {
+        match p {
+            syn::GenericParam::Type(t) => tys.push(t.ident.to_string()),
+            syn::GenericParam::Lifetime(_) => lts += 1,
+            syn::GenericParam::Const(c) => consts.push(c.ident.to_string()),
+        }
+    }
+    (tys, lts, consts)
+}
+
+struct TyCx<'a, 'r> {
+    cm: &'a CrateModel<'r>,
+    module: usize,
+    /// type parameter names in scope → index
+    params: &'a [String],
+    consts: &'a [String],
+    file: &'r SrcFile,
+}
+
+impl<'a, 'r> TyCx<'a, 'r> {
+    fn err<T>(&self, span: proc_macro2::Span, msg: &str) -> Result<T, String> {
+        Err(format!("{}: {msg}", loc(self.file, span)))
+    }
+
+    fn ty(&self, t: &syn::Type, depth: usize) -> Result<Ty, String> {
+        if depth > 32 {
+            return self.err(t.span(), "type too deep / cyclic alias");
+        }
+        match t {
+            syn::Type::Paren(p) => self.ty(&p.elem, depth + 1),
+            syn::Type::Group(p) => self.ty(&p.elem, depth + 1),
+            syn::Type::Reference(r) => {
+                let inner = Box::new(self.ty(&r.elem, depth + 1)?);
+                Ok(if r.mutability.is_some() {
+                    Ty::RefMut(inner)
+                } else {
+                    Ty::Ref(inner)
+                })
+            }
+            syn::Type::Ptr(p) => {
+                let inner = Box::new(self.ty(&p.elem, depth + 1)?);
+                Ok(if p.mutability.is_some() {
+                    Ty::RawPtrMut(inner)
+                } else {
+                    Ty::RawPtrConst(inner)
+                })
+            }
+            syn::Type::Tuple(tu) => {
+                if tu.elems.is_empty() {
+                    Ok(Ty::Unit)
+                } else {
+                    Ok(Ty::Tuple(
+                        tu.elems
+                            .iter()
+                            .map(|e| self.ty(e, depth + 1))
+                            .collect::<Result<_, _>>()?,
+                    ))
+                }
+            }
+            syn::Type::Slice(s) => Ok(Ty::Slice(Box::new(self.ty(&s.elem, depth + 1)?))),
+            syn::Type::Array(a) => Ok(Ty::Array(Box::new(self.ty(&a.elem, depth + 1)?))),
+            syn::Type::Path(tp) => {
+                if tp.qself.is_some() {
+                    return self.err(t.span(), "qualified-self type in a field is unsupported");
+                }
+                let p = &tp.path;
+                if p.segments.len() == 1 && p.leading_colon.is_none() {
+                    let id = p.segments[0].ident.to_string();
+                    if let Some(i) = self.params.iter().position(|n| *n == id) {
+                        if !p.segments[0].arguments.is_none() {
+                            return self.err(t.span(), "type parameter with arguments");
+                        }
+                        return Ok(Ty::Param(i));
+                    }
+                }
+                // generic arguments only on the last segment
+                for s in p.segments.iter().take(p.segments.len() - 1) {
+                    if !s.arguments.is_none() {
+                        return self.err(t.span(), "generic arguments on a non-final path segment");
+                    }
+                }
+                let last = p.segments.last().unwrap();
+                let (res, rest) = self
+                    .cm
+                    .resolve_syn(self.module, p)
+                    .map_err(|e| format!("{}: {e}", loc(self.file, t.span())))?;
+                if !rest.is_empty() {
+                    return self.err(t.span(), "associated type paths in fields are unsupported");
+                }
+                // raw generic args: lifetimes dropped; the rest kept positionally (a const argument
+                // such as `INLINE_CAPACITY` parses as a type path, so positions are classified by
+                // the definition's parameter list)
+                let mut raw: Vec<&syn::GenericArgument> = vec![];
+                match &last.arguments {
+                    syn::PathArguments::None => {}
+                    syn::PathArguments::AngleBracketed(ab) => {
+                        for a in &ab.args {
+                            match a {
+                                syn::GenericArgument::Lifetime(_) => {}
+                                syn::GenericArgument::Type(_) | syn::GenericArgument::Const(_) => {
+                                    raw.push(a)
+                                }
+                                _ => {
+                                    return self
+                                        .err(a.span(), "unsupported generic argument in a field type")
+                                }
+                            }
+                        }
+                    }
+                    syn::PathArguments::Parenthesized(_) => {
+                        return self.err(t.span(), "Fn-sugar type in a field is unsupported")
+                    }
+                }
+                let type_args = |this: &Self, n_expected: Option<&[bool]>| -> Result<Vec<Ty>, String> {
+                    // n_expected: per non-lifetime parameter, true = type, false = const
+                    let mut out = vec![];
+                    match n_expected {
+                        Some(kinds) => {
+                            if raw.len() > kinds.len() {
+                                return this.err(t.span(), "too many generic arguments");
+                            }
+                            for (a, is_ty) in raw.iter().zip(kinds.iter()) {
+                                if *is_ty {
+                                    match a {
+                                        syn::GenericArgument::Type(x) => {
+                                            out.push(this.ty(x, depth + 1)?)
+                                        }
+                                        _ => {
+                                            return this
+                                                .err(a.span(), "const argument in a type position")
+                                        }
+                                    }
+                                }
+                            }
+                            let n_ty = kinds.iter().filter(|k| **k).count();
+                            if out.len() != n_ty {
+                                return this.err(
+                                    t.span(),
+                                    "defaulted type parameters in a field type are unsupported",
+                                );
+                            }
+                        }
+                        None => {
+                            for a in &raw {
+                                match a {
+                                    syn::GenericArgument::Type(x) => {
+                                        // a bare identifier that is a const in scope is not a type
+                                        if let syn::Type::Path(tp) = x {
+                                            if let Some(id) = tp.path.get_ident() {
+                                                if this.consts.contains(&id.to_string()) {
+                                                    continue;
+                                                }
+                                            }
+                                        }
+                                        out.push(this.ty(x, depth + 1)?)
+                                    }
+                                    _ => {}
+                                }
+                            }
+                        }
+                    }
+                    Ok(out)
+                };
+                match res {
+                    Res::Prim(n) => {
+                        if !raw.is_empty() {
+                            return self.err(t.span(), "primitive with generic arguments");
+                        }
+                        Ok(Ty::Prim(n))
+                    }
+                    Res::External(path) => {
+                        let full = path.join("::");
+                        let args = type_args(self, None)?;
+                        let one = |args: Vec<Ty>| -> Result<Box<Ty>, String> {
+                            if args.len() == 1 {
+                                Ok(Box::new(args.into_iter().next().unwrap()))
+                            } else {
+                                Err(format!(
+                                    "{}: `{full}` expects one type argument",
+                                    loc(self.file, t.span())
+                                ))
+                            }
+                        };
+                        Ok(match full.as_str() {
+                            "core::marker::PhantomData" | "std::marker::PhantomData" => {
+                                Ty::Phantom(one(args)?)
+                            }
+                            "core::cell::Cell" | "std::cell::Cell" => Ty::Cell(one(args)?),
+                            "core::ptr::NonNull" | "std::ptr::NonNull" => Ty::NonNull(one(args)?),
+                            "core::mem::MaybeUninit" | "std::mem::MaybeUninit" => {
+                                Ty::MaybeUninit(one(args)?)
+                            }
+                            "core::mem::ManuallyDrop" | "std::mem::ManuallyDrop" => {
+                                Ty::ManuallyDrop(one(args)?)
+                            }
+                            "core::sync::atomic::AtomicUsize" | "std::sync::atomic::AtomicUsize" => {
+                                Ty::AtomicUsize
+                            }
+                            "core::num::NonZeroU8" | "std::num::NonZeroU8" => Ty::NonZeroU8,
+                            _ => Ty::Std(full, args),
+                        })
+                    }
+                    Res::Def(d) => {
+                        let g = self.cm.generics_of(d);
+                        let kinds: Vec<bool> = g
+                            .map(|g| {
+                                g.params
+                                    .iter()
+                                    .filter_map(|p| match p {
+                                        syn::GenericParam::Type(_) => Some(true),
+                                        syn::GenericParam::Const(_) => Some(false),
+                                        syn::GenericParam::Lifetime(_) => None,
+                                    })
+                                    .collect()
+                            })
+                            .unwrap_or_default();
+                        match &self.cm.defs[d].kind {
+                            DefKind::Struct(_) | DefKind::Enum(_) | DefKind::Union(_) => {
+                                let args = type_args(self, Some(&kinds))?;
+                                Ok(Ty::Named(self.cm.def_path(d), args))
+                            }
+                            DefKind::Alias(a) => {
+                                let args = type_args(self, Some(&kinds))?;
+                                let (pn, _, cn) = generic_names(&a.generics);
+                                let dm = self.cm.defs[d].module;
+                                let sub = TyCx {
+                                    cm: self.cm,
+                                    module: dm,
+                                    params: &pn,
+                                    consts: &cn,
+                                    file: self.cm.modules[dm].file,
+                                };
+                                let body = sub.ty(&a.ty, depth + 1)?;
+                                body.subst(&args)
+                            }
+                            _ => self.err(t.span(), "path does not name a type"),
+                        }
+                    }
+                }
+            }
+            _ => self.err(t.span(), "unsupported type syntax in a field"),
+        }
+    }
+}
+
+pub struct AdtRow {
+    pub name: String,
+    pub kind: &'static str,
+    pub nparams: usize,
+    pub lifetimes: usize,
+    pub fields: Vec<Ty>,
+    pub loc: String,
+}
+
+pub struct ImplRow {
+    pub tr: &'static str,
+    pub target: String,
+    pub negative: bool,
+    /// (definition parameter index, "send"|"sync")
+    pub bounds: Vec<(usize, &'static str)>,
+    pub other_bounds: Vec<String>,
+    pub lifetime_generic: bool,
+    pub loc: String,
+}
+
+fn active_fields<'r>(
+    fields: impl Iterator<Item = &'r syn::Field>,
+    file: &SrcFile,
+) -> Result<Vec<&'r syn::Field>, String> {
+    let mut out = vec![];
+    for f in fields {
+        if cfg_active(&f.attrs).map_err(|e| format!("{}: {e}", loc(file, f.span())))? {
+            out.push(f);
+        }
+    }
+    Ok(out)
+}
+
+fn auto_trait_name(cm: &CrateModel, m: usize, p: &syn::Path) -> Result<Option<&'static str>, String> {
+    let last = p.segments.last().map(|s| s.ident.to_string()).unwrap_or_default();
+    if last != "Send" && last != "Sync" {
+        return Ok(None);
+    }
+    let (res, _) = cm.resolve_syn(m, p)?;
+    match res {
+        Res::External(path) => {
+            let full = path.join("::");
+            match full.as_str() {
+                "core::marker::Send" | "std::marker::Send" => Ok(Some("send")),
+                "core::marker::Sync" | "std::marker::Sync" => Ok(Some("sync")),
+                _ => Err(format!("trait `{full}` named Send/Sync is not the std one")),
+            }
+        }
+        _ => Err("local trait named Send/Sync".into()),
+    }
+}
+
+pub fn collect(cm: &CrateModel) -> Result<(Vec<AdtRow>, Vec<ImplRow>), String> {
+    let mut adts = vec![];
+    let mut impls = vec![];
+    for (mi, module) in cm.modules.iter().enumerate() {
+        let file = module.file;
+        for &d in &module.defs {
+            let def = &cm.defs[d];
+            let (kind, generics, fields, span): (&'static str, &syn::Generics, Vec<&syn::Field>, _) =
+                match &def.kind {
+                    DefKind::Struct(s) => (
+                        ".struct",
+                        &s.generics,
+                        active_fields(s.fields.iter(), file)?,
+                        s.ident.span(),
+                    ),
+                    DefKind::Union(u) => (
+                        ".union",
+                        &u.generics,
+                        active_fields(u.fields.named.iter(), file)?,
+                        u.ident.span(),
+                    ),
+                    DefKind::Enum(e) => {
+                        let mut fs = vec![];
+                        for v in &e.variants {
+                            if cfg_active(&v.attrs)? {
+                                fs.extend(active_fields(v.fields.iter(), file)?);
+                            }
+                        }
+                        (".enum", &e.generics, fs, e.ident.span())
+                    }
+                    _ => continue,
+                };
+            let (pn, lts, cn) = generic_names(generics);
+            let cx = TyCx {
+                cm,
+                module: mi,
+                params: &pn,
+                consts: &cn,
+                file,
+            };
+            let mut ftys = vec![];
+            for f in fields {
+                ftys.push(cx.ty(&f.ty, 0)?);
+            }
+            adts.push(AdtRow {
+                name: cm.def_path(d),
+                kind,
+                nparams: pn.len(),
+                lifetimes: lts,
+                fields: ftys,
+                loc: loc(file, span),
+            });
+        }
+        // explicit Send/Sync impls
+        for it in &module.items {
+            let syn::Item::Impl(im) = it else { continue };
+            let Some((bang, tpath, _)) = &im.trait_ else {
+                continue;
+            };
+            let Some(tr) = auto_trait_name(cm, mi, tpath)
+                .map_err(|e| format!("{}: {e}", loc(file, im.span())))?
+            else {
+                continue;
+            };
+            let here = loc(file, im.impl_token.span());
+            let e = |m: &str| format!("{here}: {m}");
+            // self type: a local ADT applied to distinct impl type parameters
+            let syn::Type::Path(stp) = &*im.self_ty else {
+                return Err(e("Send/Sync impl for a non-path type"));
+            };
+            let (res, rest) = cm.resolve_syn(mi, &stp.path).map_err(|x| e(&x))?;
+            let Res::Def(target) = res else {
+                return Err(e("Send/Sync impl for a foreign type"));
+            };
+            if !rest.is_empty() || !cm.is_adt(target) {
+                return Err(e("Send/Sync impl target is not a struct/enum/union"));
+            }
+            let (impl_tys, _, _) = generic_names(&im.generics);
+            let (def_tys, def_lts, _) = generic_names(cm.generics_of(target).unwrap());
+            let def_kinds: Vec<bool> = cm
+                .generics_of(target)
+                .unwrap()
+                .params
+                .iter()
+                .filter_map(|p| match p {
+                    syn::GenericParam::Type(_) => Some(true),
+                    syn::GenericParam::Const(_) => Some(false),
+                    _ => None,
+                })
+                .collect();
+            let mut lifetime_generic = true;
+            let mut impl_lts: BTreeMap<String, usize> = BTreeMap::new();
+            for p in &im.generics.params {
+                if let syn::GenericParam::Lifetime(l) = p {
+                    if !l.bounds.is_empty() {
+                        lifetime_generic = false;
+                    }
+                    impl_lts.insert(l.lifetime.ident.to_string(), 0);
+                }
+            }
+            // map impl param name -> def param index
+            let mut map: BTreeMap<String, usize> = BTreeMap::new();
+            let mut n_lt_args = 0;
+            let mut non_lt = vec![];
+            if let syn::PathArguments::AngleBracketed(ab) = &stp.path.segments.last().unwrap().arguments
+            {
+                for a in &ab.args {
+                    match a {
+                        syn::GenericArgument::Lifetime(l) => {
+                            n_lt_args += 1;
+                            let n = l.ident.to_string();
+                            if n == "_" {
+                            } else if let Some(c) = impl_lts.get_mut(&n) {
+                                *c += 1;
+                                if *c > 1 {
+                                    lifetime_generic = false;
+                                }
+                            } else {
+                                // 'static or an undeclared name: the impl is lifetime-specific
+                                lifetime_generic = false;
+                            }
+                        }
+                        other => non_lt.push(other),
+                    }
+                }
+            }
+            if n_lt_args != def_lts && n_lt_args != 0 {
+                return Err(e("lifetime argument count mismatch"));
+            }
+            if non_lt.len() != def_kinds.len() {
+                return Err(e("generic argument count mismatch (defaults unsupported)"));
+            }
+            let mut ty_index = 0;
+            for (a, is_ty) in non_lt.iter().zip(def_kinds.iter()) {
+                if !*is_ty {
+                    continue;
+                }
+                let name = match a {
+                    syn::GenericArgument::Type(syn::Type::Path(tp)) => tp.path.get_ident().map(|i| i.to_string()),
+                    _ => None,
+                };
+                let Some(name) = name else {
+                    return Err(e("specialised Send/Sync impl (argument is not a bare parameter)"));
+                };
+                if !impl_tys.contains(&name) {
+                    return Err(e(&format!(
+                        "specialised Send/Sync impl (`{name}` is not an impl parameter)"
+                    )));
+                }
+                if map.insert(name, ty_index).is_some() {
+                    return Err(e("Send/Sync impl repeats a type parameter"));
+                }
+                ty_index += 1;
+            }
+            debug_assert_eq!(ty_index, def_tys.len());
+            // bounds
+            let mut bounds: Vec<(usize, &'static str)> = vec![];
+            let mut other: BTreeSet<String> = BTreeSet::new();
+            let mut add_bounds = |pname: &str,
+                                  bs: &syn::punctuated::Punctuated<syn::TypeParamBound, syn::Token![+]>,
+                                  lifetime_generic: &mut bool|
+             -> Result<(), String> {
+                let Some(&idx) = map.get(pname) else {
+                    return Err(e(&format!("bound on `{pname}`, which is not a parameter of the target")));
+                };
+                for b in bs {
+                    match b {
+                        syn::TypeParamBound::Trait(tb) => {
+                            if tb.lifetimes.is_some() {
+                                return Err(e("higher-ranked bound on a Send/Sync impl"));
+                            }
+                            if !matches!(tb.modifier, syn::TraitBoundModifier::None) {
+                                return Err(e("`?Trait` bound on a Send/Sync impl"));
+                            }
+                            match auto_trait_name(cm, mi, &tb.path).map_err(|x| e(&x))? {
+                                Some(t) => {
+                                    if !bounds.contains(&(idx, t)) {
+                                        bounds.push((idx, t))
+                                    }
+                                }
+                                None => {
+                                    let (r, _) = cm.resolve_syn(mi, &tb.path).map_err(|x| e(&x))?;
+                                    let n = match r {
+                                        Res::Def(d) => cm.def_path(d),
+                                        Res::External(p) => p.join("::"),
+                                        Res::Prim(p) => p,
+                                    };
+                                    other.insert(n);
+                                }
+                            }
+                        }
+                        syn::TypeParamBound::Lifetime(_) => *lifetime_generic = false,
+                        _ => return Err(e("unsupported bound syntax")),
+                    }
+                }
+                Ok(())
+            };
+            for p in &im.generics.params {
+                if let syn::GenericParam::Type(t) = p {
+                    add_bounds(&t.ident.to_string(), &t.bounds, &mut lifetime_generic)?;
+                }
+            }
+            if let Some(wc) = &im.generics.where_clause {
+                for pred in &wc.predicates {
+                    match pred {
+                        syn::WherePredicate::Type(pt) => {
+                            if pt.lifetimes.is_some() {
+                                return Err(e("higher-ranked where clause"));
+                            }
+                            let name = match &pt.bounded_ty {
+                                syn::Type::Path(tp) => tp.path.get_ident().map(|i| i.to_string()),
+                                _ => None,
+                            };
+                            let Some(name) = name else {
+                                return Err(e("where clause on something that is not a bare parameter"));
+                            };
+                            add_bounds(&name, &pt.bounds, &mut lifetime_generic)?;
+                        }
+                        syn::WherePredicate::Lifetime(_) => lifetime_generic = false,
+                        _ => return Err(e("unsupported where predicate")),
+                    }
+                }
+            }
+            bounds.sort();
+            impls.push(ImplRow {
+                tr,
+                target: cm.def_path(target),
+                negative: bang.is_some(),
+                bounds,
+                other_bounds: other.into_iter().collect(),
+                lifetime_generic,
+                loc: here.clone(),
+            });
+            if im.unsafety.is_none() && bang.is_none() {
+                return Err(format!("{here}: positive Send/Sync impl that is not `unsafe impl`"));
+            }
+        }
+    }
+    Ok((adts, impls))
+}
+
+pub fn render(adts: &[AdtRow], impls: &[ImplRow]) -> String {
+    let mut o = String::from(HEADER);
+    o.push_str("-- Struct/enum/union definitions (field types, lifetimes and const generics erased) and every\n");
+    o.push_str("-- explicit Send/Sync impl of the compiled non-test source. Configuration: features\n");
+    o.push_str(&format!(
+        "-- {:?}, 64-bit little-endian, cfg(not(test)), cfg(not(hipstr_verif)).\n",
+        FEATURES_ON
+    ));
+    o.push_str("import HipVerif.Model.AutoTraitTy\n\nnamespace HipVerif.Gen.AutoTraits\nopen HipVerif.Model.AutoTrait\n\n");
+    o.push_str("def defs : List Def := [\n");
+    for (i, a) in adts.iter().enumerate() {
+        let fields = a.fields.iter().map(|t| t.lean()).collect::<Vec<_>>().join(", ");
+        o.push_str(&format!(
+            "  ⟨{}, {}, {}, {}, [{}], {}⟩{}\n",
+            lean_str(&a.name),
+            a.kind,
+            a.nparams,
+            a.lifetimes,
+            fields,
+            lean_str(&a.loc),
+            if i + 1 == adts.len() { "" } else { "," }
+        ));
+    }
+    o.push_str("]\n\n");
+    o.push_str("def impls : List ImplFact := [\n");
+    for (i, r) in impls.iter().enumerate() {
+        let bounds = r
+            .bounds
+            .iter()
+            .map(|(p, t)| format!("(.param {p}, .{t})"))
+            .collect::<Vec<_>>()
+            .join(", ");
+        let other = r.other_bounds.iter().map(|s| lean_str(s)).collect::<Vec<_>>().join(", ");
+        o.push_str(&format!(
+            "  ⟨.{}, {}, {}, [{}], [{}], {}, {}⟩{}\n",
+            r.tr,
+            lean_str(&r.target),
+            r.negative,
+            bounds,
+            other,
+            r.lifetime_generic,
+            lean_str(&r.loc),
+            if i + 1 == impls.len() { "" } else { "," }
+        ));
+    }
+    o.push_str("]\n\n");
+    o.push_str("def table : Table := ⟨defs, impls⟩\n\nend HipVerif.Gen.AutoTraits\n");
+    o
+}
+
+pub fn generate(repo: &Repo) -> Result<Vec<GenFile>, String> {
+    let cm = CrateModel::build(repo)?;
+    let (adts, impls) = collect(&cm)?;
+    if adts.is_empty() {
+        return Err("no type definitions found".into());
+    }
+    Ok(vec![GenFile {
+        name: "AutoTraits.lean".into(),
+        content: render(&adts, &impls),
+    }])
 }
